@@ -5,6 +5,8 @@
 //   gate   : kind(0 unordered_set,1 unordered_multiset,2 set,3 multiset) bc npre pre-inserted-keys nthreads per thread (len (op key)*) -1 schedule
 //            op 1 insert | 3 find(count) | 4 traverse (begin..end) ; output history + final contents
 //   mt kind T seed n keys : real threads oracle
+//   skipgate : step-level tie with SkipModel: a concurrent_skip_list (unique keys) whose node heights are scripted and whose nodes are numbered;
+//            input = SkipModel.run_skip's; output = every access to my_max_height / a next(level) pointer in execution order, results, final chains
 #include "drv/common.h"
 #include "gate/gate.h"
 #include <random>
@@ -130,6 +132,83 @@ template <class S> static int mt_run(int T, unsigned seed, int nops, int keys, b
     return 0;
 }
 
+// ---- skipgate: scripted heights, numbered nodes, every next(level) word registered with the gate
+static thread_local std::size_t g_next_height = 1;
+static thread_local long g_next_id = 0;
+struct ScriptGen { static constexpr std::size_t max_level = 32; std::size_t operator()() { return g_next_height; } };
+static std::size_t g_node_hdr = 0;
+template <class T> struct RegAlloc {
+    using value_type = T;
+    RegAlloc() = default;
+    template <class U> RegAlloc(const RegAlloc<U>&) {}
+    T* allocate(std::size_t n) {
+        std::size_t sz = n * sizeof(T);
+        char* p = (char*)std::malloc(sz);          // never freed: addresses are never reused within a case
+        long id = g_next_id;
+        gate::reg_region(p, sz, id + 1);
+        for (std::size_t l = 0; g_node_hdr + 8 * (l + 1) <= sz; ++l) gate::reg_var(p + g_node_hdr + 8 * l, (int)(1000 + id * 40 + (long)l), true);
+        return (T*)p;
+    }
+    void deallocate(T*, std::size_t) {}
+    template <class U> bool operator==(const RegAlloc<U>&) const { return true; }
+    template <class U> bool operator!=(const RegAlloc<U>&) const { return false; }
+};
+using SSet = tbb::detail::d2::concurrent_skip_list<tbb::detail::d2::set_traits<long, std::less<long>, ScriptGen, RegAlloc<long>, false>>;
+
+static void skipgate_run(std::vector<i128>& c) {
+    gate::reset();
+    g_node_hdr = sizeof(SSet::list_node_type);
+    size_t p = 0; int nn = (int)c[p++];
+    std::vector<long> key(nn); std::vector<std::size_t> hgt(nn);
+    for (int i = 0; i < nn; ++i) { key[i] = (long)c[p++]; hgt[i] = (std::size_t)c[p++]; }
+    SSet* s = new SSet();
+    gate::reg_var(&s->my_max_height, 1);
+    g_next_id = 0; s->create_head_if_necessary();
+    int np = (int)c[p++];
+    for (int i = 0; i < np; ++i) { int id = (int)c[p++]; g_next_id = id; g_next_height = hgt[id]; s->insert(key[id]); }
+    int nt = (int)c[p++];
+    std::vector<std::vector<long>> results(nt);
+    for (int t = 0; t < nt; ++t) {
+        int len = (int)c[p++]; std::vector<std::array<long, 3>> sc;
+        for (int k = 0; k < len; ++k) { long op = (long)c[p++], kk = (long)c[p++], x = (long)c[p++]; sc.push_back({op, kk, x}); }
+        gate::spawn([s, sc, t, &results, &hgt] {
+            for (auto& o : sc) {
+                long r;
+                if (o[0] == 1) { g_next_id = o[2]; g_next_height = hgt[o[2]]; r = s->insert(o[1]).second ? 1 : 0; }
+                else r = s->find(o[1]) != s->end() ? 1 : 0;
+                results[t].push_back(o[0]); results[t].push_back(o[1]); results[t].push_back(r);
+            }
+        });
+    }
+    p++;
+    std::vector<int> sched; for (; p < c.size(); ++p) sched.push_back((int)c[p]);
+    bool ok = gate::run(sched, 200000);
+    Out o;
+    auto dec = [](unsigned long long v) -> long { return v == 0 ? 0 : (long)(v / 1000000) - 1; };
+    for (auto& e : gate::trace) {
+        if (e.var < 1) continue;
+        bool ptr = e.var >= 1000;
+        o.put(e.tid); o.put(e.var); o.put(e.kind);
+        o.put(e.kind == 2 ? 0 : (ptr ? dec(e.before) : (long)e.before)); o.put(ptr ? dec(e.after) : (long)e.after); o.put(e.ok);
+    }
+    o.put(-7); o.put(ok ? 1 : 0);
+    if (!ok) { o.word("HANG"); o.flush(); _exit(3); }
+    o.put((long)s->my_max_height.load());
+    for (int t = 0; t < nt; ++t) { o.put(-8); for (long x : results[t]) o.put(x); }
+    // final chains: node ids by address
+    std::map<const void*, long> ids;
+    for (auto& r : gate::regions) ids[(const void*)r.base] = (long)r.label - 1;
+    auto* head = s->my_head_ptr.load();
+    for (std::size_t lev = 0; lev < 32; ++lev) {
+        auto* n = head->next(lev);
+        if (!n) continue;
+        o.put(-9); o.put((long)lev);
+        long guard = 0;
+        for (; n && guard < 100000; n = n->next(lev), ++guard) o.put(ids.count(n) ? ids[n] : -1000);
+    }
+    o.flush();
+}
+
 int main(int argc, char** argv) {
     std::string mode = argc > 1 ? argv[1] : "";
     std::vector<i128> c; Out o;
@@ -143,6 +222,7 @@ int main(int argc, char** argv) {
         }
         return 0;
     }
+    if (mode == "skipgate") { while (read_case(c)) skipgate_run(c); return 0; }
     if (mode == "gate") {
         while (read_case(c)) {
             switch ((int)c[0]) { case 0: gate_run<USet>(c, false, true); break; case 1: gate_run<UMSet>(c, true, true); break; case 2: gate_run<OSet>(c, false, false); break; default: gate_run<OMSet>(c, true, false); }
